@@ -87,9 +87,12 @@ Definition meta := list (list N * list N).
 (* indexmeta.Meta.MarshalBinary (v2): at most 255 pairs, keys and values at most 255 bytes *)
 Definition enc_kv2 (kv : list N * list N) : list N :=
   N.of_nat (length (fst kv)) :: fst kv ++ N.of_nat (length (snd kv)) :: snd kv.
+Definition max_kvs : nat := 255.      (* indexmeta.MaxNumKVs *)
+Definition max_key : nat := 255.      (* indexmeta.MaxKeySize *)
+Definition max_value : nat := 255.    (* indexmeta.MaxValueSize *)
 Definition enc_meta2 (m : meta) : option (list N) :=
-  if (255 <? length m)%nat then None
-  else if forallb (fun kv => (length (fst kv) <=? 255)%nat && (length (snd kv) <=? 255)%nat) m
+  if (max_kvs <? length m)%nat then None
+  else if forallb (fun kv => (length (fst kv) <=? max_key)%nat && (length (snd kv) <=? max_value)%nat) m
        then Some (N.of_nat (length m) :: flat_map enc_kv2 m)
        else None.
 
